@@ -490,6 +490,21 @@ def same_behaviour(x, y) -> bool:
 
 
 def nf_of(fn, helpers):
+    """nf_of_ under a watchdog: a normalisation that does not finish is reported (and counted as unsupported)"""
+    import signal
+    signal.signal(signal.SIGALRM, _alarm)
+    signal.setitimer(signal.ITIMER_REAL, 120.0)
+    try:
+        return nf_of_(fn, helpers)
+    except _Timeout:
+        print("NF-HANG (no result after 120 s)\n%s\n" % ast.unparse(fn))
+        sys.stdout.flush()
+        raise Unsupported("watchdog")
+    finally:
+        signal.setitimer(signal.ITIMER_REAL, 0)
+
+
+def nf_of_(fn, helpers):
     """normal form of the function and, as units of their own (as refeq.py treats them), of the functions nested in it"""
     nested = []
 
